@@ -1054,6 +1054,97 @@ fn run_case(seed: u64, idx: u64) -> CaseOut {
     co
 }
 
+// ------------------------------------------------------------------------------------------------
+// C13 with the cargo feature `improved_unicode` (this binary builds indicatif with it): progress characters
+// are grapheme clusters, possibly of several code points; a cell is as wide as its cluster measures.
+// ------------------------------------------------------------------------------------------------
+
+fn c13_iu_case(seed: u64, idx: u64) -> CaseOut {
+    use indicatif::{ProgressDrawTarget, ProgressStyle};
+    use unicode_width::UnicodeWidthStr;
+    let mut rng = Rng::derive(seed, 1313, idx);
+    let replay = format!("{seed}:{idx}");
+    // (clusters of one configuration have the same width, as the builder demands)
+    let sets: [&[&str]; 6] = [
+        &["\u{2764}\u{FE0F}", "\u{2B50}\u{FE0F}", "\u{2601}\u{FE0F}"], // emoji + variation selector 16
+        &["\u{1F44D}\u{1F3FD}", "\u{1F44E}\u{1F3FD}"],                 // emoji + skin tone modifier
+        &["e\u{301}", "a\u{300}", "-"],                                 // base + combining mark
+        &["\u{4E16}", "\u{754C}"],                                      // plain double-width
+        &["#", ">", "-"],
+        &["\u{1F1E9}\u{1F1EA}", "\u{1F1EB}\u{1F1F7}"],               // regional-indicator pairs (flags)
+    ];
+    let set = sets[rng.usize(sets.len())];
+    let cw = UnicodeWidthStr::width(set[0]);
+    let chars: String = set.concat();
+    let wide = rng.chance(1, 2);
+    let n = rng.range(0, 40) as usize;
+    let term_w = rng.range(4, 80) as u16;
+    let len = rng.range(1, 500);
+    let pos = match rng.below(4) {
+        0 => 0,
+        1 => len,
+        _ => rng.range(0, len + 5),
+    };
+    let spec = if wide { "{wide_bar}|".to_string() } else { format!("{{bar:{n}}}|") };
+    let mut co = CaseOut::held(fnv1a(format!("{chars}{spec}{term_w}{pos}/{len}").as_bytes()), true);
+    let w = J::obj().with("progress_chars", chars.clone()).with("cluster_columns", cw).with("template", spec.clone()).with("terminal_width", term_w).with("pos", pos).with("len", len);
+    let feats = vec!["improved_unicode".to_string(), format!("cluster-width-{cw}"), if set[0].chars().count() > 1 { "multi-codepoint-cluster".into() } else { "single-codepoint".to_string() }];
+    let spy = vh::spy::SpyTerm::new(term_w, 50, false);
+    spy.enable_log();
+    spy.state().snap_on_flush = false;
+    let r = catch_unwind(AssertUnwindSafe(|| {
+        let style = ProgressStyle::with_template(&spec).unwrap().progress_chars(&chars);
+        let pb = ProgressBar::with_draw_target(Some(len), ProgressDrawTarget::term_like(spy.boxed())).with_style(style);
+        pb.set_position(pos);
+        pb.force_draw();
+        let lines = vh::rend::last_frame_lines(&spy);
+        pb.abandon();
+        lines.first().cloned().unwrap_or_default()
+    }));
+    let line = match r {
+        Ok(l) => l,
+        Err(p) => {
+            co.verdict = viol("panic", "improved_unicode", format!("{spec} with {chars:?} panicked: {}", vh::world::panic_message(&p)), w, replay);
+            return co;
+        }
+    };
+    // count the cells: split the text in front of the '|' into the configured clusters
+    let bar = line.split('|').next().unwrap_or("").trim_end_matches(' ');
+    let mut rest = bar;
+    let mut cells = 0usize;
+    'outer: while !rest.is_empty() {
+        for c in set.iter() {
+            if let Some(r) = rest.strip_prefix(c) {
+                rest = r;
+                cells += 1;
+                continue 'outer;
+            }
+        }
+        co.verdict = Verdict::Violated(Box::new(Violation {
+            rule: "cell-count".into(),
+            features: feats,
+            detail: format!("{spec} with progress characters {chars:?}: the bar {bar:?} is not a sequence of the configured clusters"),
+            witness: w,
+            replay,
+        }));
+        return co;
+    }
+    let budget = if wide { (term_w as usize).saturating_sub(1) } else { n };
+    let want = budget / cw.max(1);
+    // ({bar:N} pads with blanks that were trimmed above; a background cluster may itself be "-" or similar, never a blank)
+    if cells != want {
+        co.verdict = Verdict::Violated(Box::new(Violation {
+            rule: "cell-count".into(),
+            features: feats,
+            detail: format!("{spec} with progress characters {chars:?} ({cw} column(s) per cluster) on a {term_w}-column terminal: {cells} cells drawn, {want} fit into {budget} columns; line {line:?}"),
+            witness: w,
+            replay,
+        }));
+    }
+    co.count("improved_unicode_bars_measured", 1);
+    co
+}
+
 fn main() {
     let args: Vec<String> = std::env::args().collect();
     let mut thorough = false;
@@ -1087,6 +1178,29 @@ fn main() {
         std::panic::set_hook(Box::new(|_| {}));
     }
     let t0 = std::time::Instant::now();
+    if args.get(1).map(|s| s.as_str()) == Some("C13") {
+        let report: Report = if let Some(c) = &case {
+            let mut it = c.split(':');
+            let s: u64 = it.next().and_then(|s| s.parse().ok()).unwrap_or(seed);
+            let idx: u64 = it.next().and_then(|s| s.parse().ok()).unwrap_or(0);
+            let mut r = Report::default();
+            r.add(idx, c13_iu_case(s, idx));
+            r
+        } else {
+            run_parallel(if thorough { 1_000_000 } else { 20_000 }, workers(), |i| c13_iu_case(seed, i))
+        };
+        let mut j = report.to_json("C13", "indicatif built with the cargo feature improved_unicode: {bar:N} / {wide_bar} with progress characters that are grapheme clusters (emoji + VS16, emoji + skin tone, base + combining mark, flags, plain wide and narrow characters); the number of cells drawn must be floor(columns / cluster width); distinct = (characters, template, terminal width, pos/len)", false);
+        j.set("wall_s", t0.elapsed().as_secs_f64());
+        j.set("seed", seed);
+        j.set("tier", if thorough { "thorough" } else { "quick" });
+        j.set("profile", "release");
+        let text = j.render();
+        match out {
+            Some(p) => std::fs::write(&p, text).expect("write result"),
+            None => println!("{text}"),
+        }
+        return;
+    }
     let report: Report = if let Some(c) = &case {
         let mut it = c.split(':');
         let s: u64 = it.next().and_then(|s| s.parse().ok()).unwrap_or(seed);
